@@ -52,3 +52,5 @@ run $B/J4_elif_chain.diff C04 C07 C18
 run $B/K1_reorder_power_branches.diff C08 C09
 run $B/K2_commute_correction_test.diff C11
 run $B/K3_add_condition_order.diff C14 C12
+run $B/L1_ibis_fallback_respelled.diff C01 C02
+run $B/L2_narwhals_product_commuted.diff C01 C02
